@@ -274,6 +274,8 @@ def x1_hooks(f, dom):
         if enum_name is not None:
             # every link compares the enumerated parameter with a constant (== c, in (c, ...))
             def link(t):
+                if isinstance(t, ast.BoolOp) and isinstance(t.op, ast.Or):
+                    return all(link(v) for v in t.values)
                 return isinstance(t, ast.Compare) and len(t.ops) == 1 and isinstance(t.ops[0], (ast.Eq, ast.In)) and isinstance(t.left, ast.Name) \
                     and t.left.id == enum_name and all(isinstance(c, ast.Constant) for c in
                                                        (t.comparators[0].elts if isinstance(t.comparators[0], (ast.Tuple, ast.List, ast.Set)) else t.comparators))
